@@ -91,9 +91,9 @@ def oracle(ctx):
             if cs.shape != (n,) or tot.shape != ():
                 ctx.fail("oracle", "squad:shape-1d:%s" % method, info, [list(cs.shape), list(tot.shape)], [[n], []])
                 continue
-            if float(cs[0].abs()) > 1e-13 * scale:
+            if not float(cs[0].abs()) <= 1e-13 * scale:
                 ctx.fail("oracle", "squad:first-entry:%s:%s" % (method, bc), info, float(cs[0]), 0.0)
-            if abs(float(cs[-1] - tot)) > 1e-12 * scale:
+            if not abs(float(cs[-1] - tot)) <= 1e-12 * scale:
                 ctx.fail("oracle", "squad:last-entry:%s:%s" % (method, bc), info, [float(cs[-1]), float(tot)], "equal")
             z = torch.tensor([rng.randrange(-32, 33) / 8 for _ in xs], dtype=DT)
             if bc == "periodic":
